@@ -24,6 +24,9 @@ def step(label, cmd, cwd, **kw):
     print("%-28s rc=%d" % (label, rc))
     return rc, out
 assert sh("git status --porcelain --untracked-files=no", wt)[1].strip() == "", "worktree not clean"
+# keep the agent's out/ directory out of ./... (nested module)
+if os.path.isdir(os.path.join(wt, "out")) and not os.path.exists(os.path.join(wt, "out", "go.mod")):
+    open(os.path.join(wt, "out", "go.mod"), "w").write("module out\n\ngo 1.18\n")
 demo_files = [f for f in glob.glob(os.path.join(mdir, "*")) if os.path.basename(f).startswith("demo")]
 placed = []
 def place_demo():
